@@ -606,6 +606,9 @@ def edge_tags(a):
             tags.append("edge:>2^53")
         if any(v >= 2 ** 63 for v in vals):
             tags.append("edge:>=2^63")
+        big = sorted(v for v in vals if abs(v) >= 10 ** 5)
+        if any(b - a_ <= 1e-5 * abs(a_) for a_, b in zip(big, big[1:])):
+            tags.append("edge:relatively-close-ints")
     elif a.dtype.kind == "f":
         if np.any(np.signbit(a) & (a == 0)):
             tags.append("edge:-0.0")
@@ -621,8 +624,22 @@ def gen_dtype_case(rng):
     ones), every cell an exact Python scalar"""
     dtype = rng.choice(WRAPPER_DTYPES + ["uint64", "int64", "float64", "float32"])
     pool = dtype_pool(dtype)
+    near = False
     if dtype == "bool":
         alphabet = [False, True]
+    elif np.dtype(dtype).kind in "iu" and rng.random() < 0.35:
+        # large ids whose neighbours differ by 1: v, v+1, v+2, ... with |v| log-uniform from 1e5 (below that from half the
+        # range) up to the edge of the dtype -- different integers that are *relatively* close (|a - b| <= 1e-5 |a|)
+        info = np.iinfo(np.dtype(dtype))
+        n = rng.choice([2, 3, 3, 4])
+        lo_mag = 10 ** 5 if info.max > 10 ** 6 else info.max // 2
+        mag = int(round(10 ** rng.uniform(np.log10(lo_mag), np.log10(info.max))))
+        mag = rng.choice([mag, mag, 10 ** rng.randrange(5, 10), info.max]) if info.max > 10 ** 6 else mag
+        base = min(mag, info.max - n + 1)
+        if info.min < 0 and rng.random() < 0.4:
+            base = max(-mag, info.min)
+        alphabet = [base + k for k in range(n)]
+        near = True
     else:
         picks = rng.sample(pool, min(len(pool), rng.choice([2, 3, 3, 4])))
         if rng.random() < 0.3:
@@ -666,7 +683,7 @@ def gen_dtype_case(rng):
         kwargs = rng.choice([dict(column_name="value"), dict(column_name=""), dict(return_type="numpy"),
                              dict(column_name="DN", return_type="numpy")])
     return dict(kind="grid", exact=True, conn=rng.choice([4, 8]), dtype=dtype, grid=grid, mask=mask, mdtype=mdtype, transform=None,
-                tag="dtype-edge:" + mode, masktag="mask:" + mk, layout=G.pick_layout(rng, None, cheap=True),
+                tag="dtype-edge:" + mode + (":near-ints" if near else ""), masktag="mask:" + mk, layout=G.pick_layout(rng, None, cheap=True),
                 mlayout=G.pick_layout(rng, None, cheap=True) if mask is not None else "C", kwargs=kwargs)
 
 
@@ -1050,6 +1067,8 @@ def run(r, scale=1):
               "sparse and dense merges, wide and tall, compared with the model (which carries the table size) and the oracle; "
               "dtype-edge: rasters of every dtype the wrapper accepts (int8..uint64, float32/64, bool) over 2-4 values at the "
               "edges of the dtype (min, max, neighbours, beyond 2^24 / 2^31 / 2^53 / 2^63, +-float max, -0.0; float values "
+              "pairwise far from close; 35 % of the integer rasters over consecutive large ids v, v+1, v+2.. with |v| log-uniform "
+              "from 1e5 to the dtype's edge -- different integers that are relatively close; float values "
               "pairwise far from close), every cell an exact Python scalar, mask none / bool / int8 / float32 / nothing "
               "selected (masks only for int64 / uint64 / float rasters), 1xN / Nx1 / 1x1, column_name / return_type given: the column value of every polygon must be the raster's "
               "value at every cell it covers (exact scalar comparison), and the model is compared on the exact values; "
